@@ -1377,6 +1377,10 @@ type HotCredAuthStatusValue struct {
 }
 
 func (h *HotCredAuthStatusValue) UnmarshalCBOR(data []byte) error {
+	// Reset variant fields so decoding into a reused value cannot keep the
+	// credential or anchor of a previously decoded status
+	h.Credential = nil
+	h.Anchor = nil
 	listLen, err := cbor.ListLength(data)
 	if err != nil {
 		return err
